@@ -83,7 +83,7 @@ def run_harness(exe, seed, nworkers, max_success, max_size, known_tags=(), env=N
         out = os.path.join(d, 'pbt.%d.%d.json' % (os.getpid(), w)); ring = os.path.join(d, 'ring.%d.%d' % (os.getpid(), w))
         e = dict(vrun.BASE_ENV); e.update(SAN_ENV); e.update(env or {})
         e.update({'RC_PARAMS': 'seed=%d max_success=%d max_size=%d' % ((seed * 1000003 + w * 7919 + 1) & 0x7fffffffffffffff, max_success, max_size),
-                  'PBT_OUT': out, 'PBT_RING': ring, 'PBT_KNOWN': ','.join(known_tags)})
+                  'PBT_OUT': out, 'PBT_RING': ring, 'PBT_KNOWN': '\x1f'.join(known_tags)})
         lg = open(os.path.join(d, 'harness.%d.%d.log' % (os.getpid(), w)), 'wb')
         p = subprocess.Popen([exe], env=e, cwd=cwd, stdout=lg, stderr=subprocess.STDOUT, stdin=subprocess.DEVNULL)
         procs.append((p, out, ring, lg))
